@@ -21,7 +21,8 @@ class C04(Oracle):
     def swarm(self, rng):
         w = {"doc": 1, "bundle": 3, "add_ns": 4, "set_default": rng.choice([0, 1]), "rec": 20,
              "add_attrs": 3, "get_record": rng.choice([0, 2]), "get_records": rng.choice([0, 1]),
-             "add_type": rng.choice([0, 1])}
+             "add_type": rng.choice([0, 1]), "peek": rng.choice([0, 3]), "export": rng.choice([0, 2]),
+             "get_record_absent": rng.choice([0, 1])}
         prof = {
             "w": w,
             "max_docs": rng.choice([1, 2]),
